@@ -123,7 +123,7 @@ def run(rep: Report, rng, tier: str, known: dict, search: bool = False) -> None:
 def evidence(rep: Report) -> None:
     write_evidence(
         rep,
-        rule="cases = (expression DAG, point, route, queried variable) with route in {LocatedDifferential(e,p), Differential(e).at(p)}; every variable of e plus an absent one is queried (as name or Variable object); expressions: hand-built families with repeated variables, zero factors in 3+-factor products, nested quotients/powers and shared objects, plus rule-directed and random streams with 50% object sharing; non-trivial = in the domain, variable occurs, >= 3 nodes; distinct by (wire, point, variable, route)",
+        rule="cases = (expression DAG, point, route, queried variable) with route in {LocatedDifferential(e,p), Differential(e).at(p)}; every variable of e plus an absent one is queried (as name or Variable object); expressions: hand-built families with repeated variables, zero factors in 3+-factor products, nested quotients/powers and shared objects, plus rule-directed and random streams with 50% object sharing; non-trivial = in the domain, variable occurs, >= 3 nodes; distinct by (wire, point, variable, route); plus one kept Differential per expression asked at earlier points first (half of the cases), point pairs that are hash twins (-1 / -2), near-special, compensating, vanishing-factor and subnormal-power families",
         trusted=common.TRUSTED,
         assumptions=[common.ASSUME_RANGE],
     )
